@@ -287,8 +287,18 @@ func runC03(c *Ctx) {
 	}
 }
 
+// waitUntilGone waits until the process has left the process table and — for a puppet — until its Terminate callback
+// has run: the callback comes after unregisterProcess, i.e. after every exit/down notification about the process and
+// the identifiers it owned has been queued (the table entry goes first, the notifications are sent later by the
+// terminating goroutine; on a loaded machine that gap is long enough to be observed).
 func waitUntilGone(k *K4, pid gen.PID) {
 	waitUntil(2e9, func() bool { return !k.Alive(pid) })
+	k.mu.Lock()
+	pp := k.puppets[pid]
+	k.mu.Unlock()
+	if pp != nil {
+		waitUntil(2e9, func() bool { return pp.termd.Load() })
+	}
 }
 
 // mergeC03 rebuilds the receiver's handling order. Payload messages are recorded by onMsg into `handled`,
